@@ -64,6 +64,14 @@ def configs(tier):
             for kind in ("mixin",) if quick else ("mixin", "light"):
                 add(kind=kind, n=4, cfg=dict(CFG, extras=False, read=False, nonnode=False, L=2 if quick else 4), assertions=0,
                     reenter=True, name="%s N=4 hooks that detach a node re-entrantly A=0" % kind)
+        # resource faults: the call runs out of stack after k more frames, for every k (RecursionError can strike at any
+        # call inside the library); classes without harness hooks, so that the library's own calls are the deepest ones
+        for kind in ("bare", "bare:light"):
+            add(kind=kind, n=3, cfg=dict(CFG, extras=False, read=False), assertions=a, stack=True,
+                name="%s N=3 stack exhaustion after k frames, k=1..39 A=%d" % (kind, a))
+            if not quick:
+                add(kind=kind, n=4, cfg=dict(CFG, extras=False, read=False, nonnode=False, L=3), assertions=a, stack=True,
+                    name="%s N=4 stack exhaustion after k frames A=%d" % (kind, a))
         # the class of the exception a hook raises is part of the alphabet (TreeError / LoopError subclasses ...)
         flav = (("mixin", "tree"), ("light", "loop"), ("mixin", "assert"), ("light", "stopiter")) if quick else [
             (k, f) for k in ("mixin", "light", "node") for f in ("tree", "loop", "value", "attr", "assert", "recursion", "stopiter", "key")]
@@ -91,7 +99,7 @@ def run(tier):
     return {
         "tally": t,
         "coverage": cov,
-        "guards": ("raised:LoopError", "raised:TreeError", "raised:InjectedFault", "faulted_runs", "changed"),
+        "guards": ("raised:LoopError", "raised:TreeError", "raised:InjectedFault", "faulted_runs", "changed", "stack_exhausted_runs"),
         "assumptions": [
             "hooks only raise (they do not mutate the tree re-entrantly); exceptions are Exception subclasses",
             "bounded universes: N<=4 (5 in thorough) labelled nodes, at most 2 (3) hook exceptions per call",
